@@ -11,6 +11,7 @@
   property's own premise).  "For every crash point" is therefore "for every prefix of the write log".
 -/
 import Aqv.Lemmas.ChainBridge
+import Aqv.Lemmas.ChainTrieMem
 namespace Aqv.Props.C04
 open Aqv.ChainDb
 
@@ -414,6 +415,58 @@ example : ∃ m s', recover (applyAll gen0 (((writeLog .head gen0 0 siblingReorg
     (by intro k x hx; rcases U0_cases hx with rfl | rfl | rfl <;> (have := (Chain.mapOf_id hx).1; subst this; decide))
   rw [hghost] at hm he
   exact ⟨m, s', hm, he, htd⟩
+
+/-! ## 2b. The memory layer of trie.Database across commits that may FAIL -/
+
+/-- **Failed flushes never break the trie store.**  `commitStep true` is `Database.Commit(root)` on the memory layer of
+    dirty nodes (`commit`: skip what is not in memory, children first; `uncache` only after every flush succeeded — a
+    failed `Commit` returns its error and leaves the memory layer untouched).  Start from a closed disk and a memory layer
+    whose references are dirty or on disk (`TrieInv`); run ANY history of commits, each succeeding or failing after ANY
+    number of its puts reached the disk: the disk is closed after every one of them and the memory layer still only
+    references dirty or stored objects — so "not in memory ⇒ previously committed", the assumption `commit` relies on
+    (hypothesis `diskRefs` of `commit_children_first`), is never falsified by a write failure. -/
+theorem failed_flush_keeps_tries_whole (hist : List (Hash × Nat × Option Nat)) (md : Mem × Db) (hi : TrieInv md)
+    (hf : FuelOKAll true md hist) :
+    Closed (commitRunMem true md hist).2 ∧ MemClosed (commitRunMem true md hist).1 (commitRunMem true md hist).2 :=
+  trieInv_run hist md hi hf
+
+/-- after a `Commit(root)` whose flush failed (after any number `k` of puts) and a later successful `Commit(root)`, the
+    root is on disk together with its whole trie -/
+theorem commit_retry_root_complete (fuel : Nat) (md : Mem × Db) (root : Hash) (k : Nat) (hi : TrieInv md)
+    (hf : commitFuelOK md.1 fuel root = true) (hr : (memGet md.1 root).isSome = true) :
+    StateComplete (commitStep true fuel (commitStep true fuel md root (some k)) root none).2 root := by
+  have h1 := trieInv_commitStep fuel md root (some k) hi hf
+  have hm : (commitStep true fuel md root (some k)).1 = md.1 := by simp [commitStep]
+  have h2 := trieInv_commitStep fuel _ root none h1 (by rw [hm]; exact hf)
+  exact stateComplete_of_closed h2.1 (root_on_disk_after_commit fuel _ root h1 (by rw [hm]; exact hf) (by rw [hm]; exact hr))
+
+/-- a memory layer: roots 1 and 3 share the dirty node 2; nothing on disk -/
+def mem0 : Mem := [(1, [2]), (3, [2]), (2, [])]
+
+example : TrieInv (mem0, []) ∧ FuelOKAll true (mem0, []) [(1, 3, some 0), (3, 3, none), (1, 3, none)] := by
+  refine ⟨⟨fun h cs hg => by simp [ChainDb.get] at hg, ?_⟩, ⟨by decide, by decide, by decide, trivial⟩⟩
+  intro h cs hg c hc
+  have : (h = 1 ∧ cs = [2]) ∨ (h = 3 ∧ cs = [2]) ∨ (h = 2 ∧ cs = []) := by
+    simp only [mem0, memGet] at hg
+    split at hg
+    · left; simp_all
+    · split at hg
+      · right; left; simp_all
+      · split at hg
+        · right; right; simp_all
+        · cases hg
+  rcases this with ⟨_, rfl⟩ | ⟨_, rfl⟩ | ⟨_, rfl⟩
+  · simp at hc; subst hc; left; decide
+  · simp at hc; subst hc; left; decide
+  · cases hc
+
+/-- the seeded change C04-7 (`Commit` uncaches although its flush failed): the commit of root 1 fails before anything
+    reached the disk and nodes 1 and 2 leave the memory layer anyway; the next, successful commit of root 3 treats node 2
+    as "previously committed" and stores node 3 without its child: root 3 is on disk, its trie is not -/
+theorem uncache_after_failed_flush_witness :
+    closedB (commitRunMem false (mem0, []) [(1, 3, some 0), (3, 3, none)]).2 = false ∧
+    hasState (commitRunMem false (mem0, []) [(1, 3, some 0), (3, 3, none)]).2 3 = true ∧
+    closedB (commitRunMem true (mem0, []) [(1, 3, some 0), (3, 3, none)]).2 = true := by decide
 
 /-! ## 6. The block cache on the error path -/
 
